@@ -206,6 +206,11 @@ func (epc *EpochsContext) Clone() *EpochsContext {
 }
 
 func (epc *EpochsContext) RotateEpochs(state BeaconState) error {
+	// The slot transition hands us the upgradeable wrapper, which only has the fork-agnostic method set:
+	// look at the fork-specific state underneath, or the sync-committee assertion below can never hold.
+	if wrapped, ok := state.(WrappedBeaconState); ok {
+		state = wrapped.UnwrapBeaconState()
+	}
 	epc.PreviousEpoch = epc.CurrentEpoch
 	epc.CurrentEpoch = epc.NextEpoch
 	nextEpoch := epc.CurrentEpoch.Epoch + 1
